@@ -5,7 +5,7 @@ $c2 = comdat largest
 $c3 = comdat nodeduplicate
 $c4 = comdat samesize
 $c5 = comdat any
-$"c 6" = comdat any
+$"c\206" = comdat any
 $c7 = comdat any
 $c8 = comdat any
 $c9 = comdat largest
@@ -19,7 +19,7 @@ $g_implicit = comdat any
 @g3 = global i32 3, comdat($c3)
 @g4 = global i32 4, comdat($c4)
 @g5 = global i32 5, comdat($c5)
-@g6 = global i32 6, comdat($"c 6")
+@g6 = global i32 6, comdat($"c\206")
 @g7 = global i32 7, comdat($c7)
 @g_implicit = global i32 8, comdat
 @g9 = global i32 9, comdat($c9)
